@@ -115,8 +115,10 @@ func vRollUpFocused(k int, checkOrder bool) {
 	}
 	before := vSum(hist)
 	c := &Counter{name: "c", timeSeries: true, history: hist, value: before}
+	snap := ToMetricPB(c) // what a dump / export holds: it shares the history ENTRIES with the live counter
 	c.doRollUp(pb.RollUpLabel_NO_ROLL_UP, pb.RollUpLabel_ROLL_UP_TO_SECOND, rollUpToSecond, time.Second)
 	vAssert(vSum(c.history) == before, "compaction preserves the total")
+	vAssert(snap.GetValue() == before && vSum(snap.History) == before, "a snapshot taken before the compaction still sums to its total (compaction does not write through shared entries)")
 	var last int64
 	for i, e := range c.history {
 		if i > 0 && checkOrder {
